@@ -132,6 +132,14 @@ class Probe:
         bKb = float(self.b @ K @ self.b)
         rec.close(0, sol.preln, bKb / (4 * np.pi), 'preln = b.K.b / 4 pi', f'{key}:preln', rtol=1e-7)
         rec.close(0, sol.K_coeff, bKb / self.bmag ** 2, 'K_coeff = b.K.b / b.b', f'{key}:K_coeff', rtol=1e-7)
+        if self.s['solver'] == 'stroh':
+            # the eigenvalues Stroh works with are the six roots of the sextic of (C, m, n)
+            pref = O.sextic_roots(self.c4, self.m, self.n)
+            pgot = np.asarray(sol.p)
+            dist = np.abs(pref[:, None] - pgot[None, :]).min(axis=1) if pgot.shape == (6,) else np.full(6, np.inf)
+            rec.close(1e-8, dist, np.zeros(6), 'Stroh eigenvalues p are the six roots of det[(mm) + p((mn)+(nm)) + p^2 (nn)] = 0', f'{key}:sextic-roots',
+                      p=pgot, roots=pref)
+            rec.count('stroh:sextic-roots-compared')
         return K
 
     def energy(self):
@@ -637,6 +645,14 @@ def run_miller(ctx, am):
                     rec.close(1e-7 * kmax, K, ref.K_tensor, 'Miller input gives the K_tensor of the explicit reciprocal-lattice rotation', f'{key}:K-vs-explicit:{ikey}')
                     rec.close(1e-7 * pb.sc_s[:, None, None], pb.fs, np.real(ref.stress(pb.x)),
                               'Miller input gives the stress field of the explicit reciprocal-lattice rotation', f'{key}:stress-vs-explicit:{ikey}')
+                # ... and with the explicit rotation but the Burgers vector still in crystal (lattice) coordinates of the cell
+                ref2 = None
+                with ctx.guard('explicit transform with a cell for the Burgers vector', f'{key}:reference2-solve'):
+                    ref2 = cls(C, b_arg, transform=T, box=box, m=m_arg, n=n_arg)
+                if ref2 is not None:
+                    rec.close(1e-7 * pb.bmag, ref2.burgers, b_d, 'transform= with box=: the Burgers vector is read as a lattice vector of the cell', f'{key}:burgers-box-transform:{ikey}')
+                    rec.close(1e-7 * np.abs(K).max(), ref2.K_tensor, K, 'transform= with box= gives the K_tensor of the Miller input', f'{key}:K-box-transform:{ikey}')
+                    rec.count('miller:transform-with-box')
                 # jump across the crystallographic slip plane: points built from in-plane LATTICE vectors
                 a_c = unitv(np.asarray(w2, float) @ vects)
                 x_c = O.unit(O.uvw_cart(uvw, vects))
@@ -725,6 +741,8 @@ def run(ctx):
     rec.floor('stroh:solved', 260)
     rec.floor('miller:solved', 180)
     rec.floor('miller:corotated', 180)
+    rec.floor('miller:transform-with-box', 180)
+    rec.floor('stroh:sextic-roots-compared', 350)
     rec.floor('miller:crystal-plane-jump-points', 2000)
     rec.floor('wrapper:aniso', 260)
     rec.floor('wrapper:iso', 60)
